@@ -226,8 +226,29 @@ def check(ctx):
     ctx.check(ia is not None and all(f in norm(ia.node) for f in ("self.flattened", "self.additional_properties", "self.pattern_properties is not None")), "C05.R4", "ObjectField.is_aggregate", ia.node.body[0] if ia else None,
               "is_aggregate is no longer `flattened or additional_properties or pattern_properties is not None`: serialization (which dispatches on is_aggregate) and deserialization (which dispatches on the three accessors) can disagree on the layout of a field", ia, ia.node if ia else None, detail="derived from the three accessors")
 
+    # ---------------- R5: as_names registers an inverse pair
+    ctx.rule("C05.R5", "as_names: deserializer and serializer are inverse of each other: both go through the member *name* (the name-enum's value is the aliased name)", floor=2)
+    an = model.func("apischema.conversions.converters.as_names")
+    regs = {}
+    for c in ast.walk(an.node):
+        if isinstance(c, ast.Call) and dotted(c.func) in ("deserializer", "serializer") and c.args and isinstance(c.args[0], ast.Call) and (dotted(c.args[0].func) or "").endswith("Conversion"):
+            regs[dotted(c.func)] = c.args[0]
+    ctx.require(set(regs) == {"deserializer", "serializer"}, "as_names no longer registers a deserializer and a serializer")
+    def conv_body(conv):
+        f = conv.args[0]
+        if isinstance(f, ast.Name) and f.id in an.nested:
+            return norm(an.nested[f.id].node.body[-1])
+        return norm(f)
+    sb, db = conv_body(regs["serializer"]), conv_body(regs["deserializer"])
+    ctx.check("getattr(name_cls, obj.name)" in sb or "name_cls[obj.name]" in sb, "C05.R5", f"{an.qualname}:serializer", regs["serializer"], "the serializer of as_names no longer maps a member to the name-enum member of the same name", an, regs["serializer"], detail="getattr(name_cls, obj.name)")
+    ctx.check(".name" in db and ("getattr(cls," in db or "cls[" in db) and "partial(getattr, cls)" not in db, "C05.R5", f"{an.qualname}:deserializer", regs["deserializer"],
+              f"the deserializer of as_names is `{db[:60]}`: it must look the member up by the *name* of the name-enum member; looking it up by the member itself uses its str value, the aliased name, and fails (AttributeError) as soon as the aliaser is not the identity", an, regs["deserializer"], detail="getattr(cls, name_elt.name)")
+    kw = {d: {k.arg: norm(k.value) for k in c.keywords} for d, c in regs.items()}
+    ctx.check(kw["deserializer"].get("source") == kw["serializer"].get("target") and kw["deserializer"].get("target") == kw["serializer"].get("source"), "C05.R5", f"{an.qualname}:types", regs["deserializer"], "source / target of the two conversions are not swapped", an, an.node, detail="deserializer(source=name_cls, target=cls) / serializer(source=cls, target=name_cls)")
+
 
 def mutants(mb):
+    mb.add_text("as-names-by-value", "apischema/conversions/converters.py", "        return getattr(cls, name_elt.name)\n", "        return getattr(cls, name_elt)\n", "C05.R5", "deserializer")
     mb.add_text("is-aggregate-own-metadata", "apischema/objects/fields.py", "        return (\n            self.flattened\n            or self.additional_properties\n            or self.pattern_properties is not None\n        )", "        return FLATTEN_METADATA in self.metadata or PROPERTIES_METADATA in self.metadata", "C05.R4", "ObjectField")
     S = "apischema/std_types.py"
     OVp = "apischema/objects/visitor.py"
